@@ -44,6 +44,7 @@ def run(ctx):
     for i in core.coq_bools('c13', 'Base.Bytes Model.Tag', exprs):
         ctx.corr_fail('model and implementation disagree on %s octets' % meta[i]['kind'], meta[i])
     run_stacks(ctx)
+    run_algebra(ctx)
 
 
 def tag_stack_cases(ctx, n):
@@ -143,6 +144,61 @@ def run_stacks(ctx):
             ctx.prop_fail('identifier octets on the wire are not the type\'s tags outermost to innermost', meta[i])
         else:
             ctx.corr_fail('model accepts a near-miss type the implementation rejects', meta[i])
+
+
+def run_algebra(ctx):
+    """The tag algebra itself, against the model's tag_explicitly / tag_implicitly (about which C13_explicit and
+    C13_implicit are proved): every base type's tag set and tag sets of depth 2..3, tagged with every class (UNIVERSAL
+    included) x number x format, through TagSet.tagExplicitly / tagImplicitly and through subtype() of a value object."""
+    from pyasn1.type import char, useful
+    protos = [univ.Boolean(), univ.Integer(), univ.BitString(), univ.OctetString(), univ.Null(), univ.ObjectIdentifier(), univ.Real(),
+              univ.Enumerated(), char.UTF8String(), useful.GeneralizedTime(), univ.Sequence(), univ.SequenceOf(), univ.Set(), univ.SetOf(),
+              univ.Integer().subtype(explicitTag=tag.Tag(128, 32, 3)), univ.Sequence().subtype(implicitTag=tag.Tag(64, 0, 40)),
+              univ.OctetString().subtype(implicitTag=tag.Tag(192, 0, 1)).subtype(explicitTag=tag.Tag(128, 0, 2 ** 20))]
+    def lit(ts):
+        return coqio.clist([coqio.ctag(t.tagClass, t.tagFormat == 32, t.tagId) for t in ts.superTags])
+    exprs, meta = [], []
+    nums = [0, 16, 17, 30, 31, 128, 2 ** 32]
+    for pi, proto in enumerate(protos):
+        for cls in [0] + CLASSES:
+            for num in nums:
+                for fmt in (0, 32):
+                    if (pi + num + cls // 64 + fmt // 32 + ctx.seed) % (3 if ctx.tier == 'quick' else 1) and cls != 0:
+                        continue
+                    t = tag.Tag(cls, fmt, num)
+                    ctx.case(('algebra', type(proto).__name__, len(proto.tagSet), cls, num, fmt), cls == 0 or fmt == 32)
+                    m = {'kind': 'algebra', 'type': type(proto).__name__, 'tags': repr(proto.tagSet), 'tag': [cls, fmt, num]}
+                    outs = []
+                    for how, f in (('tagExplicitly', lambda: proto.tagSet.tagExplicitly(t)), ('subtype(explicitTag)', lambda: proto.subtype(explicitTag=t).tagSet)):
+                        try:
+                            r = f()
+                        except error.PyAsn1Error:
+                            r = None
+                        outs.append(r)
+                        ctx.stats['explicit:%s' % ('refused' if r is None else 'applied')] += 1
+                        if cls == 0 and r is not None:
+                            ctx.prop_fail('%s accepts a tag of the UNIVERSAL class' % how, m)
+                        if cls != 0:
+                            want = list(proto.tagSet.superTags) + [tag.Tag(cls, 32, num)]
+                            if r is None or [(x.tagClass, x.tagFormat, x.tagId) for x in r.superTags] != [(x.tagClass, x.tagFormat, x.tagId) for x in want]:
+                                ctx.prop_fail('%s does not add exactly one constructed tag' % how, m)
+                    exprs.append('match tag_explicitly %s %s with Ok ts => %s | Err _ => %s end' % (
+                        lit(proto.tagSet), coqio.ctag(cls, fmt == 32, num),
+                        'false' if outs[0] is None else 'list_eqb (fun a b => tag_eqb a b && Bool.eqb (tcon a) (tcon b)) ts %s' % lit(outs[0]),
+                        'true' if outs[0] is None else 'false'))
+                    meta.append(dict(m, op='explicit'))
+                    if cls != 0:
+                        for how, f in (('tagImplicitly', lambda: proto.tagSet.tagImplicitly(t)), ('subtype(implicitTag)', lambda: proto.subtype(implicitTag=t).tagSet)):
+                            r = f()
+                            old = list(proto.tagSet.superTags)
+                            want = old[:-1] + [tag.Tag(cls, old[-1].tagFormat, num)]
+                            if [(x.tagClass, x.tagFormat, x.tagId) for x in r.superTags] != [(x.tagClass, x.tagFormat, x.tagId) for x in want]:
+                                ctx.prop_fail('%s does not replace just the outermost tag keeping its form' % how, m)
+                        exprs.append('list_eqb (fun a b => tag_eqb a b && Bool.eqb (tcon a) (tcon b)) (tag_implicitly %s %s) %s' % (
+                            lit(proto.tagSet), coqio.ctag(cls, fmt == 32, num), lit(r)))
+                        meta.append(dict(m, op='implicit'))
+    for i in core.coq_bools('c13a', 'Base.Bytes Model.Tag', exprs):
+        ctx.corr_fail('model and implementation disagree on the tag algebra (%s tagging)' % meta[i]['op'], meta[i])
 
 
 def replay(data):
